@@ -2,7 +2,28 @@ package tunnel
 
 import (
 	"context"
+	"net"
+	"sync"
 )
+
+// c16Open is a connection whose peer sends nothing and does not close: reads block until the
+// connection itself is closed.
+type c16Open struct {
+	once   sync.Once
+	done   chan struct{}
+	Closed bool
+}
+
+func newC16Open() *c16Open { return &c16Open{done: make(chan struct{})} }
+func (c *c16Open) Read(p []byte) (int, error) {
+	<-c.done
+	return 0, net.ErrClosed
+}
+func (c *c16Open) Write(p []byte) (int, error) { return len(p), nil }
+func (c *c16Open) Close() error {
+	c.once.Do(func() { c.Closed = true; close(c.done) })
+	return nil
+}
 
 type c16Mgr struct {
 	TunnelManager
@@ -134,4 +155,38 @@ func Harness_C16_real_manager() {
 	verif_Assert("C16.mgr2.close_again_ok", mgr.Close() == nil && ts[0].Close(CloseReasonNormal, nil) == nil && closed[0] == 1)
 	verif_Assert("C16.mgr2.close_unknown_fails_cleanly", mgr.CloseTunnel("t1", CloseReasonNormal) != nil)
 	verif_Cover("C16.mgr2.done")
+}
+
+// The mapping handler registers a tunnel and starts it afterwards; the manager may be closed in
+// between (or while Start runs). However the three interleave, the tunnel ends Closed with its
+// callback run exactly once, both connections closed, nothing of it running and the manager empty.
+func Harness_C16_manager_close_before_start() {
+	verif_ClockSet(int64(1) << 60)
+	ctx, cancel := context.WithCancel(context.Background())
+	defer cancel()
+	mgr := NewTunnelManager(ctx, TunnelRoleTarget)
+	closed := 0
+	local, remote := newC16Open(), newC16Open() // both peers idle: nothing ends the tunnel but a close
+	t := NewTunnel(&TunnelConfig{ID: "t1", MappingID: "m1", Role: TunnelRoleTarget, Protocol: "tcp", LocalConn: local, TunnelRWC: remote,
+		Manager: mgr, OnClosed: func(r CloseReason, err error) { closed++ }})
+	verif_Assert("C16.mgr3.register", mgr.RegisterTunnel(t) == nil)
+	var startErr error
+	if verif_Bool() {
+		// strictly in between
+		verif_Assert("C16.mgr3.close_ok", mgr.Close() == nil)
+		startErr = t.Start()
+		verif_Cover("C16.mgr3.closed_between")
+	} else {
+		verif_Spawn(func() { mgr.Close() })
+		verif_Spawn(func() { startErr = t.Start() })
+		verif_Cover("C16.mgr3.closed_during_start")
+	}
+	left := verif_Quiesce()
+	_ = startErr
+	verif_Assert("C16.mgr3.onclosed_once", closed == 1)
+	verif_Assert("C16.mgr3.state_closed", t.GetState() == TunnelStateClosed)
+	verif_Assert("C16.mgr3.conns_closed", local.Closed && remote.Closed)
+	verif_Assert("C16.mgr3.manager_empty", mgr.CountTunnels() == 0)
+	verif_Assert("C16.mgr3.nothing_running", left == 0)
+	verif_Cover("C16.mgr3.done")
 }
